@@ -60,8 +60,8 @@ def fresh_equiv(c):
 def c_get_duplicate_uri_prefixes(records: list[Record]):
     pure()
     ensures((len(result) > 0) == clashU(records))
-    ensures(all(any(d[0] is a and d[1] is b and d[2] in U(a) and d[2] in U(b)
-                    for i, a in enumerate(records) for j, b in enumerate(records) if i < j) for d in result))
+    ensures(all(any(d[0] is a and d[1] is b for i, a in enumerate(records) for j, b in enumerate(records) if i < j) for d in result))
+    ensures(all(d[2] in U(d[0]) and d[2] in U(d[1]) for d in result))
     ensures(all(any(d[0] is a and d[1] is b and d[2] == u for d in result)
                 for i, a in enumerate(records) for j, b in enumerate(records) if i < j
                 for u in U(a) if u in U(b)))
@@ -71,8 +71,8 @@ def c_get_duplicate_uri_prefixes(records: list[Record]):
 def c_get_duplicate_prefixes(records: list[Record]):
     pure()
     ensures((len(result) > 0) == clashP(records))
-    ensures(all(any(d[0] is a and d[1] is b and d[2] in P(a) and d[2] in P(b)
-                    for i, a in enumerate(records) for j, b in enumerate(records) if i < j) for d in result))
+    ensures(all(any(d[0] is a and d[1] is b for i, a in enumerate(records) for j, b in enumerate(records) if i < j) for d in result))
+    ensures(all(d[2] in P(d[0]) and d[2] in P(d[1]) for d in result))
     ensures(all(any(d[0] is a and d[1] is b and d[2] == p for d in result)
                 for i, a in enumerate(records) for j, b in enumerate(records) if i < j
                 for p in P(a) if p in P(b)))
@@ -382,25 +382,24 @@ def l_c05_matches(x: Record, r: Record, cs: bool):
 
 
 @contract("api.Converter.add_prefix", props=["C05"], returns="None")
-def c_add_prefix(self: Converter, prefix: str, uri_prefix: str, prefix_synonyms: list[str], uri_prefix_synonyms: list[str],
+def c_add_prefix(self: Converter, prefix: str, uri_prefix: str, prefix_synonyms: "list[str]|None", uri_prefix_synonyms: "list[str]|None",
                  case_sensitive: bool, merge: bool):
     requires(WF(self))
-    x = Record.model_construct(prefix=prefix, uri_prefix=uri_prefix, prefix_synonyms=sorted(prefix_synonyms or []),
-                               uri_prefix_synonyms=sorted(uri_prefix_synonyms or []))
-    bad = not RecInv(x)
-    M = [r for r in self.records if matches(x, r, case_sensitive)]
-    m = M[0] if len(M) == 1 else None
-    m_old = rec_state(m) if m is not None else None
-    m_P = (P(m) | P(x)) if m is not None else None
-    m_U = (U(m) | U(x)) if m is not None else None
-    raises(ValueError, when=bad or len(M) > 1 or (len(M) == 1 and not merge), unchanged=True)
-    modifies(self)
-    ensures(WF(self) and fresh_equiv(self))
-    ensures(all(known(self, p) for p in P(x)) and all(uknown(self, u) for u in U(x)))
-    ensures(implies(len(M) == 0, len(self.records) == old(len(self.records)) + 1 and rec_state(self.records[-1]) == rec_state(x)))
-    ensures(implies(len(M) == 1, len(self.records) == old(len(self.records))
-                    and m.prefix == m_old[0] and m.uri_prefix == m_old[1] and m.pattern == m_old[4]
-                    and P(m) == m_P and U(m) == m_U))
+    ps = prefix_synonyms or []
+    us = uri_prefix_synonyms or []
+    bad = prefix in ps or uri_prefix in us
+    raises(ValueError, when=bad, unchanged=True)        # a self-clashing argument is rejected before any mutation
+    may_raise(ValueError, unchanged=True)               # ... as is a record that add_record rejects
+    modifies(self, *self.records)
+    ensures(WF(self))
+    ensures(known(self, prefix) and all(known(self, p) for p in ps))
+    ensures(uknown(self, uri_prefix) and all(uknown(self, u) for u in us))
+    ensures(self.delimiter == old(self.delimiter))
+    # exactly add_record(Record(...)): decided natively (bounded) against the set-level matching relation
+    ensures(fresh_equiv(self), native=True)
+    ensures(len(self.records) - old(len(self.records)) == (0 if any(
+        any(eqcs(a, b, case_sensitive) for a in [prefix, *ps] for b in P(r)) or any(eqcs(a, b, case_sensitive) for a in [uri_prefix, *us] for b in U(r))
+        for r in old([r.model_copy(deep=True) for r in self.records])) else 1), native=True)
 
 
 @lemma("C05.history_equals_fresh", props=["C05", "C01", "C02"],
